@@ -269,6 +269,29 @@ def run(ctx: Ctx, rep: Report) -> None:
                     break
             rep.check(guarded, "C09-R7", vfn.site(node), f"{vfn.qualname}: the error-status of a message that is not (yet) authenticated cannot surface as an agent error (a forged noSuchName would end a walk silently)", detail, key=f"{vfn.key}|unauthenticated-error-status")
 
+    # ... and in the security model itself nothing makes the PDU speak before the verification ran (a report check
+    # hoisted in front of verify_authentication lets a forged error-status out as an agent error)
+    vkeys = {f.key for f, _, _ in verifiers}
+    pcfg = ctx.cfg(proc)
+    vstmts = []
+    for n in own_nodes(proc.node):
+        if isinstance(n, ast.Call) and (any(isinstance(c, FuncInfo) and c.key in vkeys for c in ctx.r.callees(proc, n)) or any(n is call for f, call, _ in verifiers if f.key == proc.key)):
+            cn = cfg_node_of(pcfg, n)
+            if cn is not None:
+                vstmts.append(cn)
+    if vstmts:
+        simple = [n for n in own_nodes(proc.node) if isinstance(n, ast.stmt) and not isinstance(n, (ast.If, ast.For, ast.While, ast.Try, ast.With, ast.FunctionDef, ast.AsyncFunctionDef, ast.ClassDef))]
+        tests = [n.test for n in own_nodes(proc.node) if isinstance(n, (ast.If, ast.While))] + [n.iter for n in own_nodes(proc.node) if isinstance(n, ast.For)]
+        for node in simple + tests:
+            cn = cfg_node_of(pcfg, node)
+            if cn is None or cn in vstmts:
+                continue
+            forced = forces_pdu(ctx, proc, node)
+            if not forced:
+                continue
+            after = pcfg.must_pass(pcfg.entry, [cn], vstmts)
+            rep.check(after, "C09-R7", proc.site(node), f"{proc.qualname}: `{norm(node)[:60]}` evaluates the lazily decoded PDU only after the message passed the verification", "" if after else f"reachable before the verification; forces {forced[0]}", key=f"{proc.key}|pdu-forced-before-verification")
+
     # ---- R6 refusals are not swallowed further up
     from .common import check_not_quietly_caught
 
